@@ -133,7 +133,7 @@ Theorem old_rule_resumes_at_stale_cursor :
      let n := length (gc_nodes (gcfg_at T g)) in
      let st := Z.to_nat (g_cursor (gat g w0)) in
      let w2 := scan T beh (eval_graph f T beh false) g st (n - st) w0 in
-     if negb (ok w2) then upd_g g (fun s => g_set_flags (g_started s) false true s) w2
+     if negb (ok w2) then upd_g g (fun s => g_set_flags (g_started s) false (negb (w_err w2 =? PAUSED)) s) w2
      else
        let w3 := upd_g g (g_set_cursor 0) w2 in
        let w4 := match gc_parent (gcfg_at T g) with
@@ -157,7 +157,7 @@ Proof. vm_compute. repeat split; reflexivity. Qed.
 
 (* the hypotheses of the capture theorems are met: a world carrying an exception, a capturing node *)
 Example capture_hypotheses_inhabited :
-  let T := [mkGC None [mkCfg 3 false false true 0 [] 0 (-1) []]] in
+  let T := [mkGC None [mkCfg 3 false false true 0 [] 0 (-1) [] (fun _ => 0)]] in
   let w := set_err 105 (init_world T) in
   parents_lt T /\ c_kind (ncfg_at T 0 0) = 3 /\ w_err w = 105 /\ (0 < length (w_gs w))%nat
   /\ (0 < length (g_nodes (gat 0 w)))%nat
